@@ -1,171 +1,235 @@
-// C11: every record's remap_indices() rewrites *all* of its index-valued fields through the remapper and nothing else.
+// C11 (a): per-record index rewriting.  X::remap_indices(remap) must send EVERY index-valued field of the record
+// (scalars, every element of every index vector, and the index fields of the Derivation / Parameter sub-records)
+// through remap.map_from, and must leave every other field alone.
 //
-// IndexRemapper::map_from is cut out of the real code and replaced by the injective function f below (f(0) = 0 like the
-// real remapper, which never maps the "no index" value 0; f(i) = i + 1000 otherwise).  The lists of index fields are
-// written here from the class definitions (interrogate*.h), independently of the remap_indices() bodies: a field that
-// remap_indices() forgets keeps its old value i != f(i) and fails.
+// IndexRemapper::map_from is cut and replaced by an injective function f chosen by a symbolic key K:
+//     f(0) = 0,  f(K) = K,  f(x) = x ^ K otherwise       (a bijection on int for every K)
+// which mirrors the one property of the real map_from that callers rely on: an index that was given no mapping (in
+// particular the "no entity" index 0) stays what it is; K == 0 is the identity remapper.  The oracle below is written
+// from the class definitions (interrogate*.h), field by field: a field forgotten in remap_indices - or a non-index
+// field remapped by mistake - fails for some K.
 #include "verif.h"
-#include "interrogateDatabase.h"
+#include "interrogateType.h"
+#include "interrogateFunction.h"
+#include "interrogateFunctionWrapper.h"
+#include "interrogateElement.h"
+#include "interrogateManifest.h"
+#include "interrogateMakeSeq.h"
 #include "indexRemapper.h"
 #include <string>
 #include <vector>
-#ifndef NMAX
-#define NMAX 2
+
+#ifdef NMAX
+#define VMAX NMAX
+#endif
+#ifndef VMAX
+#define VMAX 2
 #endif
 
-static int f(int i) { return i == 0 ? 0 : i + 1000; }
-int IndexRemapper::map_from(int from) const { return f(from); }
-
-// a symbolic index: 0 ("none") or any positive index up to 2^30 (so that f does not overflow)
-static int idx() { int i = nondet_int(); ASSUME(i >= 0 && i <= (1 << 30)); return i; }
-
-// one-character strings written straight into the small-string buffer (std::string::operator= drags the whole
-// _M_replace overlap analysis into the query) and compared by size and first byte
-static void set1(std::string &s, char c) { s._M_local_buf[0] = c; s._M_local_buf[1] = 0; s._M_string_length = 1; }
-static bool is1(const std::string &s, char c) { return s.size() == 1 && s[0] == c; }
-
-#define DISPATCH(body) { int n_sym = nondet_int(); ASSUME(n_sym >= 0 && n_sym <= NMAX); \
-  if (n_sym == 0) { body<0>(); return; } \
-  if (NMAX >= 1 && n_sym == 1) { body<(NMAX >= 1 ? 1 : 0)>(); return; } \
-  if (NMAX >= 2 && n_sym == 2) { body<(NMAX >= 2 ? 2 : 0)>(); return; } \
-  if (NMAX >= 3 && n_sym == 3) { body<(NMAX >= 3 ? 3 : 0)>(); return; } }
-
-#define MAPPED(field, what) ASSERT(r->field == f(old_##what), "C11 " #what " is rewritten through the index map")
-#define KEPT(field, what) ASSERT(r->field == old_##what, "C11 " #what " (not an index) is left unchanged")
-
-template<int N> static void fill(std::vector<int> &v, int *old) { for (int i = 0; i < N; i++) { old[i] = idx(); v.push_back(old[i]); } }
-template<int N> static void check(const std::vector<int> &v, const int *old, const char *) {
-  ASSERT(v.size() == (size_t)N, "C11 remapping keeps the length of every index vector");
-  for (int i = 0; i < N && i < (int)v.size(); i++) ASSERT(v[i] == f(old[i]), "C11 every element of an index vector is rewritten through the index map");
+static int g_key;
+static const IndexRemapper *g_remap;       // every call must go to the remapper that was passed in
+static bool g_foreign;
+static int f(int x) { return (x == 0 || x == g_key) ? x : (x ^ g_key); }
+int IndexRemapper::map_from(int from) const {
+  if (this != g_remap) g_foreign = true;
+  return f(from);
 }
 
-// ---- InterrogateType ----
-template<int N> static void type_body() {
-  InterrogateType *r = new InterrogateType;
-  IndexRemapper *remap = new IndexRemapper;
-  int old_flags = r->_flags = nondet_int();
-  int old_atomic = nondet_int(); r->_atomic_token = (AtomicToken)old_atomic;
-  int old_array_size = r->_array_size = nondet_int();
-  int old_outer_class = r->_outer_class = idx();
-  int old_wrapped_type = r->_wrapped_type = idx();
-  int old_destructor = r->_destructor = idx();
-  set1(r->_name, 'n'); set1(r->_scoped_name, 's'); set1(r->_true_name, 't'); set1(r->_comment, 'c');
-  int o_ctor[N + 1], o_elem[N + 1], o_meth[N + 1], o_cast[N + 1], o_seq[N + 1], o_nest[N + 1];
-  fill<N>(r->_constructors, o_ctor); fill<N>(r->_elements, o_elem); fill<N>(r->_methods, o_meth);
-  fill<N>(r->_casts, o_cast); fill<N>(r->_make_seqs, o_seq); fill<N>(r->_nested_types, o_nest);
-  int o_dflags[N + 1], o_dbase[N + 1], o_dup[N + 1], o_ddown[N + 1], o_eval[N + 1];
-  for (int i = 0; i < N; i++) {
-    InterrogateType::Derivation d;
-    o_dflags[i] = d._flags = nondet_int(); o_dbase[i] = d._base = idx(); o_dup[i] = d._upcast = idx(); o_ddown[i] = d._downcast = idx();
-    r->_derivations.push_back(d);
+// symbolic vector length with concrete structure (see c20_records.cxx)
+template<class V> static void set_len(V &v, int n) { v._M_impl._M_finish = v._M_impl._M_start + n; }
+static int sym_len() { int n = nondet_int(); ASSUME(n >= 0 && n <= VMAX); return n; }
+
+struct IVec { int n; int m[VMAX]; };
+static void fill(std::vector<int> &v, IVec &x) {
+  x.n = sym_len();
+  v.resize(VMAX);
+  for (int i = 0; i < VMAX; i++) { x.m[i] = nondet_int(); v[i] = x.m[i]; }
+  set_len(v, x.n);
+}
+// all stored elements remapped, length unchanged (the slots beyond the length are not part of the vector)
+static bool remapped(const std::vector<int> &v, const IVec &x) {
+  if ((int)v.size() != x.n) return false;
+  bool ok = true;
+  for (int i = 0; i < VMAX; i++) if (i < x.n && v[i] != f(x.m[i])) ok = false;
+  return ok;
+}
+static char sym_str(std::string &s) { char c = nondet_char(); ASSUME(c != 0); s.assign(1, c); return c; }
+static bool str_is(const std::string &s, char c) { return s.size() == 1 && s[0] == c; }
+
+static IndexRemapper *start() {
+  g_key = nondet_int();
+  g_foreign = false;
+  IndexRemapper *r = new IndexRemapper;
+  g_remap = r;
+  return r;
+}
+
+// ---- InterrogateType -------------------------------------------------------------------------------------------
+extern "C" void harness_c11_remap_type() {
+  IndexRemapper *remap = start();
+  InterrogateType *t = new InterrogateType;
+  // index fields (TypeIndex / FunctionIndex / ElementIndex / MakeSeqIndex)
+  int outer = nondet_int(), wrapped = nondet_int(), dtor = nondet_int();
+  t->_outer_class = outer; t->_wrapped_type = wrapped; t->_destructor = dtor;
+  IVec ctors, elems, meths, casts, seqs, nested;
+  fill(t->_constructors, ctors); fill(t->_elements, elems); fill(t->_methods, meths);
+  fill(t->_casts, casts); fill(t->_make_seqs, seqs); fill(t->_nested_types, nested);
+  int nd = sym_len();
+  int dfl[VMAX], dba[VMAX], dup[VMAX], ddn[VMAX];
+  t->_derivations.resize(VMAX);
+  for (int i = 0; i < VMAX; i++) {
+    dfl[i] = nondet_int(); dba[i] = nondet_int(); dup[i] = nondet_int(); ddn[i] = nondet_int();
+    InterrogateType::Derivation &d = t->_derivations[i];
+    d._flags = dfl[i]; d._base = dba[i]; d._upcast = dup[i]; d._downcast = ddn[i];
   }
-  r->_enum_values.reserve(N);
-  for (int i = 0; i < N; i++) {
-    r->_enum_values.emplace_back();
-    set1(r->_enum_values.back()._name, 'e');
-    o_eval[i] = r->_enum_values.back()._value = nondet_int();
-  }
-  r->remap_indices(*remap);
-  MAPPED(_outer_class, outer_class); MAPPED(_wrapped_type, wrapped_type); MAPPED(_destructor, destructor);
-  KEPT(_flags, flags); KEPT(_array_size, array_size);
-  ASSERT((int)r->_atomic_token == old_atomic, "C11 atomic token (not an index) is left unchanged");
-  ASSERT(is1(r->_name, 'n') && is1(r->_scoped_name, 's') && is1(r->_true_name, 't') && is1(r->_comment, 'c'), "C11 names and comment are left unchanged");
-  check<N>(r->_constructors, o_ctor, "constructors"); check<N>(r->_elements, o_elem, "elements"); check<N>(r->_methods, o_meth, "methods");
-  check<N>(r->_casts, o_cast, "casts"); check<N>(r->_make_seqs, o_seq, "make_seqs"); check<N>(r->_nested_types, o_nest, "nested types");
-  ASSERT(r->_derivations.size() == (size_t)N && r->_enum_values.size() == (size_t)N, "C11 remapping keeps the length of every index vector");
-  for (int i = 0; i < N && i < (int)r->_derivations.size(); i++) {
-    ASSERT(r->_derivations[i]._base == f(o_dbase[i]), "C11 derivation base is rewritten through the index map");
-    ASSERT(r->_derivations[i]._upcast == f(o_dup[i]), "C11 derivation upcast is rewritten through the index map");
-    ASSERT(r->_derivations[i]._downcast == f(o_ddown[i]), "C11 derivation downcast is rewritten through the index map");
-    ASSERT(r->_derivations[i]._flags == o_dflags[i], "C11 derivation flags (not an index) are left unchanged");
-  }
-  for (int i = 0; i < N && i < (int)r->_enum_values.size(); i++)
-    ASSERT(r->_enum_values[i]._value == o_eval[i] && is1(r->_enum_values[i]._name, 'e'), "C11 enum values (not indices) are left unchanged");
+  set_len(t->_derivations, nd);
+  // non-index fields
+  int flags = nondet_int(), atomic = nondet_int(), asize = nondet_int();
+  ASSUME(atomic >= 0 && atomic <= 12);
+  t->_flags = flags; t->_atomic_token = (AtomicToken)atomic; t->_array_size = asize;
+  char cn = sym_str(t->_name), cs = sym_str(t->_scoped_name), ct = sym_str(t->_true_name), cc = sym_str(t->_comment);
+  int ne = sym_len();
+  int ev[VMAX]; char en[VMAX];
+  t->_enum_values.resize(VMAX);
+  for (int i = 0; i < VMAX; i++) { ev[i] = nondet_int(); t->_enum_values[i]._value = ev[i]; en[i] = sym_str(t->_enum_values[i]._name); }
+  set_len(t->_enum_values, ne);
+
+  t->remap_indices(*remap);
+
+  ASSERT(!g_foreign, "C11 type: indices are looked up in the remapper that was passed in");
+  ASSERT(t->_outer_class == f(outer), "C11 type: _outer_class is remapped");
+  ASSERT(t->_wrapped_type == f(wrapped), "C11 type: _wrapped_type is remapped");
+  ASSERT(t->_destructor == f(dtor), "C11 type: _destructor is remapped");
+  ASSERT(remapped(t->_constructors, ctors), "C11 type: every constructor index is remapped");
+  ASSERT(remapped(t->_elements, elems), "C11 type: every element index is remapped");
+  ASSERT(remapped(t->_methods, meths), "C11 type: every method index is remapped");
+  ASSERT(remapped(t->_casts, casts), "C11 type: every cast index is remapped");
+  ASSERT(remapped(t->_make_seqs, seqs), "C11 type: every make_seq index is remapped");
+  ASSERT(remapped(t->_nested_types, nested), "C11 type: every nested type index is remapped");
+  bool der = (int)t->_derivations.size() == nd, derflags = true;
+  for (int i = 0; i < VMAX; i++)
+    if (i < nd) {
+      const InterrogateType::Derivation &d = t->_derivations[i];
+      if (d._base != f(dba[i]) || d._upcast != f(dup[i]) || d._downcast != f(ddn[i])) der = false;
+      if (d._flags != dfl[i]) derflags = false;
+    }
+  ASSERT(der, "C11 type: base, upcast and downcast of every derivation are remapped");
+  ASSERT(derflags, "C11 type: derivation flags are not an index and stay unchanged");
+  ASSERT(t->_flags == flags && (int)t->_atomic_token == atomic && t->_array_size == asize, "C11 type: flags, atomic token and array size stay unchanged");
+  ASSERT(str_is(t->_name, cn) && str_is(t->_scoped_name, cs) && str_is(t->_true_name, ct) && str_is(t->_comment, cc), "C11 type: names and comment stay unchanged");
+  bool enums = (int)t->_enum_values.size() == ne;
+  for (int i = 0; i < VMAX; i++) if (i < ne && (t->_enum_values[i]._value != ev[i] || !str_is(t->_enum_values[i]._name, en[i]))) enums = false;
+  ASSERT(enums, "C11 type: enum values are not indices and stay unchanged");
   WITNESS();
 }
-extern "C" void harness_c11_remap_type() { DISPATCH(type_body) }
 
-// ---- InterrogateFunction ----
-template<int N> static void function_body() {
-  InterrogateFunction *r = new InterrogateFunction;
-  IndexRemapper *remap = new IndexRemapper;
-  int old_flags = r->_flags = nondet_int();
-  int old_class = r->_class = idx();
-  set1(r->_name, 'n'); set1(r->_scoped_name, 's'); set1(r->_comment, 'c'); set1(r->_prototype, 'p');
-  int o_c[N + 1], o_py[N + 1];
-  fill<N>(r->_c_wrappers, o_c); fill<N>(r->_python_wrappers, o_py);
-  r->remap_indices(*remap);
-  MAPPED(_class, class); KEPT(_flags, flags);
-  ASSERT(is1(r->_name, 'n') && is1(r->_scoped_name, 's') && is1(r->_comment, 'c') && is1(r->_prototype, 'p'), "C11 names, comment and prototype are left unchanged");
-  check<N>(r->_c_wrappers, o_c, "c wrappers"); check<N>(r->_python_wrappers, o_py, "python wrappers");
+// ---- InterrogateFunction -----------------------------------------------------------------------------------------
+extern "C" void harness_c11_remap_function() {
+  IndexRemapper *remap = start();
+  InterrogateFunction *fn = new InterrogateFunction;
+  int cls = nondet_int();
+  fn->_class = cls;
+  IVec cw, pw;
+  fill(fn->_c_wrappers, cw); fill(fn->_python_wrappers, pw);
+  int flags = nondet_int();
+  fn->_flags = flags;
+  char cn = sym_str(fn->_name), cs = sym_str(fn->_scoped_name), cc = sym_str(fn->_comment), cp = sym_str(fn->_prototype);
+
+  fn->remap_indices(*remap);
+
+  ASSERT(!g_foreign, "C11 function: indices are looked up in the remapper that was passed in");
+  ASSERT(fn->_class == f(cls), "C11 function: _class is remapped");
+  ASSERT(remapped(fn->_c_wrappers, cw), "C11 function: every C wrapper index is remapped");
+  ASSERT(remapped(fn->_python_wrappers, pw), "C11 function: every Python wrapper index is remapped");
+  ASSERT(fn->_flags == flags, "C11 function: flags stay unchanged");
+  ASSERT(str_is(fn->_name, cn) && str_is(fn->_scoped_name, cs) && str_is(fn->_comment, cc) && str_is(fn->_prototype, cp),
+         "C11 function: names, comment and prototype stay unchanged");
   WITNESS();
 }
-extern "C" void harness_c11_remap_function() { DISPATCH(function_body) }
 
-// ---- InterrogateFunctionWrapper ----
-template<int N> static void wrapper_body() {
-  InterrogateFunctionWrapper *r = new InterrogateFunctionWrapper;
-  IndexRemapper *remap = new IndexRemapper;
-  int old_flags = r->_flags = nondet_int();
-  int old_function = r->_function = idx();
-  int old_return_type = r->_return_type = idx();
-  int old_return_value_destructor = r->_return_value_destructor = idx();
-  set1(r->_name, 'n'); set1(r->_unique_name, 'u'); set1(r->_comment, 'c');
-  int o_pt[N + 1], o_pf[N + 1];
-  r->_parameters.reserve(N);
-  for (int i = 0; i < N; i++) {
-    r->_parameters.emplace_back();
-    set1(r->_parameters.back()._name, 'x');
-    o_pf[i] = r->_parameters.back()._parameter_flags = nondet_int();
-    o_pt[i] = r->_parameters.back()._type = idx();
+// ---- InterrogateFunctionWrapper ----------------------------------------------------------------------------------
+extern "C" void harness_c11_remap_wrapper() {
+  IndexRemapper *remap = start();
+  InterrogateFunctionWrapper *w = new InterrogateFunctionWrapper;
+  int fun = nondet_int(), rt = nondet_int(), rd = nondet_int();
+  w->_function = fun; w->_return_type = rt; w->_return_value_destructor = rd;
+  int np = sym_len();
+  int pf[VMAX], pt[VMAX]; char pn[VMAX];
+  w->_parameters.resize(VMAX);
+  for (int i = 0; i < VMAX; i++) {
+    pf[i] = nondet_int(); pt[i] = nondet_int();
+    InterrogateFunctionWrapper::Parameter &p = w->_parameters[i];
+    p._parameter_flags = pf[i]; p._type = pt[i];
+    pn[i] = sym_str(p._name);
   }
-  r->remap_indices(*remap);
-  MAPPED(_function, function); MAPPED(_return_type, return_type); MAPPED(_return_value_destructor, return_value_destructor);
-  KEPT(_flags, flags);
-  ASSERT(is1(r->_name, 'n') && is1(r->_unique_name, 'u') && is1(r->_comment, 'c'), "C11 names and comment are left unchanged");
-  ASSERT(r->_parameters.size() == (size_t)N, "C11 remapping keeps the length of every index vector");
-  for (int i = 0; i < N && i < (int)r->_parameters.size(); i++) {
-    ASSERT(r->_parameters[i]._type == f(o_pt[i]), "C11 parameter type is rewritten through the index map");
-    ASSERT(r->_parameters[i]._parameter_flags == o_pf[i] && is1(r->_parameters[i]._name, 'x'), "C11 parameter flags and name are left unchanged");
-  }
+  set_len(w->_parameters, np);
+  int flags = nondet_int();
+  w->_flags = flags;
+  char cn = sym_str(w->_name), cu = sym_str(w->_unique_name), cc = sym_str(w->_comment);
+
+  w->remap_indices(*remap);
+
+  ASSERT(!g_foreign, "C11 wrapper: indices are looked up in the remapper that was passed in");
+  ASSERT(w->_function == f(fun), "C11 wrapper: _function is remapped");
+  ASSERT(w->_return_type == f(rt), "C11 wrapper: _return_type is remapped");
+  ASSERT(w->_return_value_destructor == f(rd), "C11 wrapper: _return_value_destructor is remapped");
+  bool types = (int)w->_parameters.size() == np, rest = true;
+  for (int i = 0; i < VMAX; i++)
+    if (i < np) {
+      const InterrogateFunctionWrapper::Parameter &p = w->_parameters[i];
+      if (p._type != f(pt[i])) types = false;
+      if (p._parameter_flags != pf[i] || !str_is(p._name, pn[i])) rest = false;
+    }
+  ASSERT(types, "C11 wrapper: the type of every parameter is remapped");
+  ASSERT(rest, "C11 wrapper: parameter flags and names stay unchanged");
+  ASSERT(w->_flags == flags && str_is(w->_name, cn) && str_is(w->_unique_name, cu) && str_is(w->_comment, cc),
+         "C11 wrapper: flags, names and comment stay unchanged");
   WITNESS();
 }
-extern "C" void harness_c11_remap_wrapper() { DISPATCH(wrapper_body) }
 
-// ---- InterrogateElement, InterrogateManifest, InterrogateMakeSeq (no vectors) ----
+// ---- InterrogateElement, InterrogateManifest, InterrogateMakeSeq (scalar index fields only) ---------------------------
 extern "C" void harness_c11_remap_scalars() {
-  IndexRemapper *remap = new IndexRemapper;
-  {
-    InterrogateElement *r = new InterrogateElement;
-    int old_flags = r->_flags = nondet_int();
-    int old_type = r->_type = idx(), old_getter = r->_getter = idx(), old_setter = r->_setter = idx();
-    int old_has_function = r->_has_function = idx(), old_clear_function = r->_clear_function = idx();
-    int old_del_function = r->_del_function = idx(), old_length_function = r->_length_function = idx();
-    int old_insert_function = r->_insert_function = idx(), old_getkey_function = r->_getkey_function = idx();
-    set1(r->_name, 'n'); set1(r->_scoped_name, 's'); set1(r->_comment, 'c');
-    r->remap_indices(*remap);
-    MAPPED(_type, type); MAPPED(_getter, getter); MAPPED(_setter, setter); MAPPED(_has_function, has_function);
-    MAPPED(_clear_function, clear_function); MAPPED(_del_function, del_function); MAPPED(_length_function, length_function);
-    MAPPED(_insert_function, insert_function); MAPPED(_getkey_function, getkey_function);
-    KEPT(_flags, flags);
-    ASSERT(is1(r->_name, 'n') && is1(r->_scoped_name, 's') && is1(r->_comment, 'c'), "C11 names and comment are left unchanged");
-  }
-  {
-    InterrogateManifest *r = new InterrogateManifest;
-    int old_flags = r->_flags = nondet_int(), old_int_value = r->_int_value = nondet_int();
-    int old_type = r->_type = idx(), old_getter = r->_getter = idx();
-    set1(r->_name, 'n'); set1(r->_definition, 'd');
-    r->remap_indices(*remap);
-    MAPPED(_type, type); MAPPED(_getter, getter); KEPT(_flags, flags); KEPT(_int_value, int_value);
-    ASSERT(is1(r->_name, 'n') && is1(r->_definition, 'd'), "C11 name and definition are left unchanged");
-  }
-  {
-    InterrogateMakeSeq *r = new InterrogateMakeSeq;
-    int old_length_getter = r->_length_getter = idx(), old_element_getter = r->_element_getter = idx();
-    set1(r->_name, 'n'); set1(r->_scoped_name, 's'); set1(r->_comment, 'c');
-    r->remap_indices(*remap);
-    MAPPED(_length_getter, length_getter); MAPPED(_element_getter, element_getter);
-    ASSERT(is1(r->_name, 'n') && is1(r->_scoped_name, 's') && is1(r->_comment, 'c'), "C11 names and comment are left unchanged");
-  }
+  IndexRemapper *remap = start();
+  InterrogateElement *e = new InterrogateElement;
+  int v[9];
+  v[0] = nondet_int(); v[1] = nondet_int(); v[2] = nondet_int(); v[3] = nondet_int(); v[4] = nondet_int();
+  v[5] = nondet_int(); v[6] = nondet_int(); v[7] = nondet_int(); v[8] = nondet_int();
+  e->_type = v[0]; e->_getter = v[1]; e->_setter = v[2]; e->_has_function = v[3]; e->_clear_function = v[4];
+  e->_del_function = v[5]; e->_insert_function = v[6]; e->_getkey_function = v[7]; e->_length_function = v[8];
+  int eflags = nondet_int();
+  e->_flags = eflags;
+  char en = sym_str(e->_name), es = sym_str(e->_scoped_name), ec = sym_str(e->_comment);
+  e->remap_indices(*remap);
+  ASSERT(e->_type == f(v[0]), "C11 element: _type is remapped");
+  ASSERT(e->_getter == f(v[1]), "C11 element: _getter is remapped");
+  ASSERT(e->_setter == f(v[2]), "C11 element: _setter is remapped");
+  ASSERT(e->_has_function == f(v[3]), "C11 element: _has_function is remapped");
+  ASSERT(e->_clear_function == f(v[4]), "C11 element: _clear_function is remapped");
+  ASSERT(e->_del_function == f(v[5]), "C11 element: _del_function is remapped");
+  ASSERT(e->_insert_function == f(v[6]), "C11 element: _insert_function is remapped");
+  ASSERT(e->_getkey_function == f(v[7]), "C11 element: _getkey_function is remapped");
+  ASSERT(e->_length_function == f(v[8]), "C11 element: _length_function is remapped");
+  ASSERT(e->_flags == eflags && str_is(e->_name, en) && str_is(e->_scoped_name, es) && str_is(e->_comment, ec),
+         "C11 element: flags, names and comment stay unchanged");
+
+  InterrogateManifest *m = new InterrogateManifest;
+  int mt = nondet_int(), mg = nondet_int(), mflags = nondet_int(), mint = nondet_int();
+  m->_type = mt; m->_getter = mg; m->_flags = mflags; m->_int_value = mint;
+  char mn = sym_str(m->_name), md = sym_str(m->_definition);
+  m->remap_indices(*remap);
+  ASSERT(m->_type == f(mt), "C11 manifest: _type is remapped");
+  ASSERT(m->_getter == f(mg), "C11 manifest: _getter is remapped");
+  ASSERT(m->_flags == mflags && m->_int_value == mint && str_is(m->_name, mn) && str_is(m->_definition, md),
+         "C11 manifest: flags, integer value, name and definition stay unchanged");
+
+  InterrogateMakeSeq *s = new InterrogateMakeSeq;
+  int sl = nondet_int(), se = nondet_int();
+  s->_length_getter = sl; s->_element_getter = se;
+  char sn = sym_str(s->_name), ss = sym_str(s->_scoped_name), sc = sym_str(s->_comment);
+  s->remap_indices(*remap);
+  ASSERT(s->_length_getter == f(sl), "C11 make_seq: _length_getter is remapped");
+  ASSERT(s->_element_getter == f(se), "C11 make_seq: _element_getter is remapped");
+  ASSERT(str_is(s->_name, sn) && str_is(s->_scoped_name, ss) && str_is(s->_comment, sc), "C11 make_seq: names and comment stay unchanged");
+  ASSERT(!g_foreign, "C11 element/manifest/make_seq: indices are looked up in the remapper that was passed in");
   WITNESS();
 }
